@@ -8,5 +8,7 @@ CONSTANTS
   Mutant = "quitflag0"
   MaxNodes = 3
   WithQuit = TRUE
+  WithErr = FALSE
+  WithSkip = FALSE
 INVARIANT Safety
 PROPERTY Term
